@@ -1,6 +1,9 @@
 package sim
 
-import "fmt"
+import (
+	"fmt"
+	"strings"
+)
 
 // checkC16: ConnState, Err() and Done() tell the truth, per BaseClient.
 func checkC16(ix *index, add addFn) {
@@ -8,6 +11,16 @@ func checkC16(ix *index, add addFn) {
 	if sc.Family == "race" {
 		checkC16Race(ix, add)
 		return
+	}
+	if sc.Cfg.Client == "base" {
+		// "the error that ended it": what C19 says about the identity of Err()
+		// after a peer close / a malformed packet, read as a statement about the
+		// error reported with Closed
+		checkC19(ix, func(rule, detail string, feat map[string]string) {
+			if rule == "sentinel" && strings.HasPrefix(detail, "conn ") {
+				add("closed", detail, map[string]string{"kind": "cause", "via": "C19"})
+			}
+		})
 	}
 	conns := ix.connInfos()
 	// which connection was current when Disconnect was invoked
@@ -202,6 +215,11 @@ func checkC16(ix *index, add addFn) {
 		}
 		if ix.complete && end >= 0 && !lastDone {
 			add("done", fmt.Sprintf("conn %d ended but Done() was not closed when the run was judged", k), nil)
+		}
+		// a connection that reported Disconnected has been disconnected: its
+		// transport is closed when the run is judged
+		if ix.complete && discStateAt >= 0 && end < 0 {
+			add("disconnected", fmt.Sprintf("conn %d: Disconnected was reported at t=%dns but the transport is still open when the run is judged", k, ix.tr[discStateAt].T), map[string]string{"kind": "still-open"})
 		}
 	}
 }
